@@ -8,6 +8,7 @@ import (
 	"fmt"
 	"io"
 	"os"
+	"reflect"
 	"sort"
 	"strings"
 	"sync"
@@ -131,6 +132,20 @@ func LoadConfiguration(sc *world.Scenario, w *world.World) (err error) {
 		return fmt.Errorf("reading the generated configuration: %w", err)
 	}
 	configuration.LoadConfig()
+	return nil
+}
+
+// configValue returns the loaded value of a top-level configuration option, found by the key a user writes
+// (the field's json tag) - the harness names no Go field of fan2go's configuration structs.
+func configValue(key string) any {
+	v := reflect.ValueOf(configuration.CurrentConfig)
+	t := v.Type()
+	for i := 0; i < t.NumField(); i++ {
+		tag := t.Field(i).Tag.Get("json")
+		if k, _, _ := strings.Cut(tag, ","); strings.EqualFold(k, key) {
+			return v.Field(i).Interface()
+		}
+	}
 	return nil
 }
 
@@ -270,7 +285,11 @@ func (s *Stage) boot() {
 		s.K.Stop()
 		return
 	}
-	s.Pers = persistence.NewPersistence(configuration.CurrentConfig.DbPath)
+	dbPath, _ := configValue("dbPath").(string)
+	if dbPath == "" {
+		dbPath = s.W.DBPath()
+	}
+	s.Pers = persistence.NewPersistence(dbPath)
 	// the controllers, created by the daemon's own wiring (control algorithm selection included)
 	ctls, err := internal.VerifInitializeFanControllers(s.Pers, fanMap)
 	if err != nil {
@@ -304,7 +323,11 @@ func (s *Stage) boot() {
 		}
 		sort.Strings(ids)
 		for _, id := range ids {
-			mon := internal.NewSensorMonitor(s.Sensors[id], configuration.CurrentConfig.TempSensorPollingRate)
+			rate, ok := configValue("tempSensorPollingRate").(time.Duration)
+			if !ok {
+				rate = s.Sc.TempPoll.D()
+			}
+			mon := internal.NewSensorMonitor(s.Sensors[id], rate)
 			s.spawn("mon:"+id, 0, func() error { return mon.Run(s.Ctx) })
 		}
 	}
